@@ -53,7 +53,11 @@ DevStdinInvs == {Inv(s, f, FALSE, "devstdin", dr, {}, "", FALSE, FALSE, FALSE, d
                 \cup {Inv("output", "json", m, "devstdin", FALSE, {}, "", FALSE, FALSE, FALSE, "wf", "pipe") : m \in B}
 UnderFileInvs == {Inv("mkdir", "", FALSE, "stdin", dr, {}, "reg/sub", FALSE, FALSE, FALSE, d, "pipe") : dr \in B, d \in {"wf", "hostile"}}
                  \cup {Inv("verify", "", FALSE, "stdin", FALSE, {}, "reg/sub", st, FALSE, FALSE, "wf", "pipe") : st \in B}
-BaseInvs == DevStdinInvs \cup UnderFileInvs \cup EmptyArgInvs \cup NullInvs \cup BigInvs \cup BrokenInvs \cup OutputInvs \cup MkdirInvs \cup VerifyInvs \cup TemplateInvs \cup DotInvs \cup TimeoutInvs \cup WatchInvs \cup UsageInvs \cup InfoInvs
+\* flag values with a '$' in them are names as they stand (nothing expands them)
+DollarInvs == {Inv("mkdir", "", FALSE, "stdin", dr, {".x"}, "s$HOME", FALSE, FALSE, FALSE, "wf", "pipe") : dr \in B}
+              \cup {Inv("verify", "", FALSE, "stdin", FALSE, {}, "s$HOME", st, FALSE, FALSE, "wf", "pipe") : st \in B}
+              \cup {Inv(s, "", FALSE, "dollar", FALSE, {}, "", FALSE, FALSE, FALSE, d, "pipe") : s \in {"output", "mkdir", "verify"}, d \in {"wf", "malformed"}}
+BaseInvs == DollarInvs \cup DevStdinInvs \cup UnderFileInvs \cup EmptyArgInvs \cup NullInvs \cup BigInvs \cup BrokenInvs \cup OutputInvs \cup MkdirInvs \cup VerifyInvs \cup TemplateInvs \cup DotInvs \cup TimeoutInvs \cup WatchInvs \cup UsageInvs \cup InfoInvs
 \* every invocation in its three spellings, with the argv words the real binary is given
 Spelled(S, sps) == {[ [i EXCEPT !.sp = sp] EXCEPT !.argv = Argv([i EXCEPT !.sp = sp])] : i \in S, sp \in sps}
 AllInvs == Spelled(BaseInvs, {"long", "short", "eq"})
